@@ -156,8 +156,9 @@ theorem unlinkAo_sub (s : SState) (i : Nat) : Sub s (unlinkAo s i) := by
   · exact Sub.refl s
   · dsimp only
     split
-    · exact ⟨fun m hm => mem_of_mem_eraseAo hm, fun _ h => h,
-        fun j h => (sub_withInfo s i _).dirty j h⟩
+    · refine ⟨fun m hm => mem_of_mem_eraseAo hm, fun _ h => h, fun j h => ?_⟩
+      have h' : (getInfo (withInfo s i (fun x => { x with ao := none })) j).dirty = true := h
+      exact (sub_withInfo s i _).dirty j h'
     · exact (sub_withInfo s _ _).trans (sub_fail _ _)
 
 theorem unlinkWo_sub (s : SState) (i : Nat) : Sub s (unlinkWo s i) := by
@@ -165,8 +166,9 @@ theorem unlinkWo_sub (s : SState) (i : Nat) : Sub s (unlinkWo s i) := by
   · exact Sub.refl s
   · dsimp only
     split
-    · exact ⟨fun _ h => h, fun m hm => mem_of_mem_eraseWo hm,
-        fun j h => (sub_withInfo s i _).dirty j h⟩
+    · refine ⟨fun _ h => h, fun m hm => mem_of_mem_eraseWo hm, fun j h => ?_⟩
+      have h' : (getInfo (withInfo s i (fun x => { x with wo := none })) j).dirty = true := h
+      exact (sub_withInfo s i _).dirty j h'
     · exact (sub_withInfo s _ _).trans (sub_fail _ _)
 
 theorem subCounters_sub (s : SState) (n w : Nat) : Sub s (subCounters s n w) := by
@@ -381,6 +383,34 @@ theorem Sub.trans_c {key : Nat} {hash : UInt64} {info : Nat} {a b c : SState}
   ⟨fun n hn => (h2.prob n hn).imp (h1.prob n) id, fun n hn => (h2.wo n hn).imp (h1.wo n) id,
    fun j h => h1.dirty j (h2.dirty j h)⟩
 
+theorem SubC.trans {key : Nat} {hash : UInt64} {info : Nat} {a b c : SState}
+    (h1 : SubC key hash info a b) (h2 : SubC key hash info b c) : SubC key hash info a c := by
+  refine ⟨fun n hn => ?_, fun n hn => ?_, fun j h => h1.dirty j (h2.dirty j h)⟩
+  · rcases h2.prob n hn with h | h
+    · exact h1.prob n h
+    · exact Or.inr h
+  · rcases h2.wo n hn with h | h
+    · exact h1.wo n h
+    · exact Or.inr h
+
+theorem subc_push_ao (key : Nat) (hash : UInt64) (info : Nat) (s : SState) (node : AoNode)
+    (h1 : node.key = key) (h2 : node.hash = hash) (h3 : node.info = info) :
+    SubC key hash info s { s with prob := s.prob ++ [node], nextId := s.nextId + 1 } := by
+  refine ⟨fun n hn => ?_, fun n hn => Or.inl hn, fun _ h => h⟩
+  have hn' : n ∈ s.prob ++ [node] := hn
+  rcases List.mem_append.mp hn' with h | h
+  · exact Or.inl h
+  · simp at h; rw [h]; exact Or.inr ⟨h1, h2, h3⟩
+
+theorem subc_push_wo (key : Nat) (hash : UInt64) (info : Nat) (s : SState) (wn : WoNode)
+    (h3 : wn.info = info) :
+    SubC key hash info s { s with wo := s.wo ++ [wn], nextId := s.nextId + 1 } := by
+  refine ⟨fun n hn => Or.inl hn, fun n hn => ?_, fun _ h => h⟩
+  have hn' : n ∈ s.wo ++ [wn] := hn
+  rcases List.mem_append.mp hn' with h | h
+  · exact Or.inl h
+  · simp at h; rw [h]; exact Or.inr h3
+
 theorem handleAdmit_subc (p : Params) (s : SState) (key : Nat) (hash : UInt64) (ve : VE)
     (w : Nat) : SubC key hash ve.info s (handleAdmit p s key hash ve w) := by
   unfold handleAdmit
@@ -393,26 +423,14 @@ theorem handleAdmit_subc (p : Params) (s : SState) (key : Nat) (hash : UInt64) (
   generalize (if p.q.d8 = true then addCounters s 1 w
       else withInfo (addCounters s 1 w) ve.info (fun i => { i with weight := w })) = s2 at h2 ⊢
   refine Sub.trans_c h2 ?_
+  refine SubC.trans_sub ?_ (sub_withInfo _ _ _)
   split
-  · refine ⟨fun n hn => ?_, fun n hn => ?_, fun j h => ?_⟩
-    · have hn' : n ∈ s2.prob ++ [_] := hn
-      rcases List.mem_append.mp hn' with h | h
-      · exact Or.inl h
-      · simp at h; rw [h]; exact Or.inr ⟨rfl, rfl, rfl⟩
-    · have hn' : n ∈ s2.wo ++ [_] := hn
-      rcases List.mem_append.mp hn' with h | h
-      · exact Or.inl h
-      · simp at h; rw [h]; exact Or.inr rfl
-    · have h6 := (sub_withInfo _ ve.info _).dirty j h
-      have h5 := (sub_withInfo _ ve.info _).dirty j h6
-      exact (sub_withInfo _ ve.info _).dirty j h5
-  · refine ⟨fun n hn => ?_, fun n hn => Or.inl hn, fun j h => ?_⟩
-    · have hn' : n ∈ s2.prob ++ [_] := hn
-      rcases List.mem_append.mp hn' with h | h
-      · exact Or.inl h
-      · simp at h; rw [h]; exact Or.inr ⟨rfl, rfl, rfl⟩
-    · have h6 := (sub_withInfo _ ve.info _).dirty j h
-      exact (sub_withInfo _ ve.info _).dirty j h6
+  · refine SubC.trans_sub ?_ (sub_withInfo _ _ _)
+    refine SubC.trans ?_ (subc_push_wo _ _ _ _ _ rfl)
+    refine SubC.trans_sub ?_ (sub_withInfo _ _ _)
+    exact subc_push_ao _ _ _ _ _ rfl rfl rfl
+  · refine SubC.trans_sub ?_ (sub_withInfo _ _ _)
+    exact subc_push_ao _ _ _ _ _ rfl rfl rfl
 
 theorem admitOrReject_subc (p : Params) (s : SState) (key : Nat) (hash : UInt64) (ve : VE)
     (newW : Nat) : SubC key hash ve.info s (admitOrReject p s key hash ve newW) := by
@@ -2320,6 +2338,1555 @@ theorem oracleC13_trace {p : Params} (hq : NoQuirks p) (hsm : SmallSketch p) (h 
   | some cap =>
     dsimp only
     exact admitC13Sync_run hq hsm hcap h.length h (Nat.le_refl _) {} (init_ainv p)
+
+/-! ## Recency (C12): the access order between two quiescent snapshots
+
+Between two quiescent snapshots the access-order list changes only by removals and by moving
+*unstable* nodes to the back: nodes of the one info that was used (a recorded hit, a queued
+insert) and nodes that no longer belong to the map's entry of their key (their `Remove` is
+still queued). -/
+
+/-- The node does not belong to the entry the map holds under its key. -/
+def NonCur (s : SState) (n : AoNode) : Prop :=
+  ∀ e, AL.get? s.map n.key = some e → e.info ≠ n.info
+
+/-- Unstable: a node of the used info, or a node that is not current. -/
+def Unst (u : Option Nat) (s : SState) (n : AoNode) : Prop := some n.info = u ∨ NonCur s n
+
+theorem NonCur.mono {s s' : SState} {n : AoNode}
+    (hsub : ∀ k ve, AL.get? s'.map k = some ve → AL.get? s.map k = some ve) (h : NonCur s n) :
+    NonCur s' n := fun e he => h e (hsub _ _ he)
+
+theorem Unst.mono {u : Option Nat} {s s' : SState} {n : AoNode}
+    (hsub : ∀ k ve, AL.get? s'.map k = some ve → AL.get? s.map k = some ve) (h : Unst u s n) :
+    Unst u s' n := h.imp id (NonCur.mono hsub)
+
+/-- `l` is a sublist `A` of `l0` followed by nodes `T` satisfying `P`; if `d`, the nodes of `A`
+satisfy `Q`. -/
+def Split (d : Bool) (P Q : AoNode → Prop) (l0 l : List AoNode) : Prop :=
+  ∃ A T, l = A ++ T ∧ A.Sublist l0 ∧ (∀ n, n ∈ T → P n) ∧ (d = true → ∀ n, n ∈ A → Q n)
+
+theorem Split.refl (P Q : AoNode → Prop) (l : List AoNode) : Split false P Q l l :=
+  ⟨l, [], by simp, List.Sublist.refl _, (fun _ h => by cases h), (fun h => by cases h)⟩
+
+theorem Split.of_sublist {P Q : AoNode → Prop} {l0 l : List AoNode} (h : l.Sublist l0) :
+    Split false P Q l0 l :=
+  ⟨l, [], by simp, h, (fun _ h => by cases h), (fun h => by cases h)⟩
+
+theorem Split.weaken {d : Bool} {P Q : AoNode → Prop} {l0 l : List AoNode}
+    (h : Split d P Q l0 l) : Split false P Q l0 l := by
+  obtain ⟨A, T, h1, h2, h3, _⟩ := h
+  exact ⟨A, T, h1, h2, h3, fun h => by cases h⟩
+
+theorem Split.trans {d1 d2 : Bool} {P P' Q : AoNode → Prop} {l0 l1 l2 : List AoNode}
+    (h1 : Split d1 P Q l0 l1) (h2 : Split d2 P' Q l1 l2) (mono : ∀ n, P n → P' n) :
+    Split (d1 || d2) P' Q l0 l2 := by
+  obtain ⟨A1, T1, e1, s1, p1, q1⟩ := h1
+  obtain ⟨A2, T2, e2, s2, p2, q2⟩ := h2
+  rw [e1] at s2
+  obtain ⟨A2a, A2b, ea, sa, sb⟩ := List.sublist_append_iff.mp s2
+  refine ⟨A2a, A2b ++ T2, by rw [e2, ea, List.append_assoc], sa.trans s1, ?_, ?_⟩
+  · intro n hn
+    rcases List.mem_append.mp hn with h | h
+    · exact mono n (p1 n (sb.subset h))
+    · exact p2 n h
+  · intro hd n hn
+    cases hd1 : d1 with
+    | true => exact q1 hd1 n (sa.subset hn)
+    | false =>
+      rw [hd1, Bool.false_or] at hd
+      exact q2 hd n (by rw [ea]; exact List.mem_append_left _ hn)
+
+/-- One piece of maintenance as seen by the access order. -/
+structure Mv (d : Bool) (u : Option Nat) (s s' : SState) : Prop where
+  split : Split d (Unst u s') (fun n => some n.info ≠ u) s.prob s'.prob
+  kn : (AL.keys s.map).Nodup → (AL.keys s'.map).Nodup
+  mapSub : (AL.keys s.map).Nodup →
+    ∀ k ve, AL.get? s'.map k = some ve → AL.get? s.map k = some ve
+
+theorem Mv.refl (u : Option Nat) (s : SState) : Mv false u s s :=
+  ⟨Split.refl _ _ _, fun h => h, fun _ _ _ h => h⟩
+
+theorem Mv.weaken {d : Bool} {u : Option Nat} {s s' : SState} (h : Mv d u s s') :
+    Mv false u s s' := ⟨h.split.weaken, h.kn, h.mapSub⟩
+
+theorem Mv.of_sublist {u : Option Nat} {s s' : SState} (h : s'.prob.Sublist s.prob)
+    (hf : Frame s s') : Mv false u s s' :=
+  ⟨Split.of_sublist h, hf.kn, hf.mapSub⟩
+
+theorem Mv.trans {d1 d2 : Bool} {u : Option Nat} {a b c : SState}
+    (hkn : (AL.keys a.map).Nodup) (h1 : Mv d1 u a b) (h2 : Mv d2 u b c) :
+    Mv (d1 || d2) u a c :=
+  ⟨h1.split.trans h2.split (fun _ h => h.mono (h2.mapSub (h1.kn hkn))),
+   fun h => h2.kn (h1.kn h),
+   fun hn k ve h => h1.mapSub hn k ve (h2.mapSub (h1.kn hn) k ve h)⟩
+
+/-- The access order of `s` relative to the reference list `N` (the access order at the last
+quiescent snapshot). -/
+def Seg (d : Bool) (u : Option Nat) (N : List AoNode) (s : SState) : Prop :=
+  Split d (Unst u s) (fun n => some n.info ≠ u) N s.prob
+
+theorem Seg.step {d1 d2 : Bool} {u : Option Nat} {N : List AoNode} {s s' : SState}
+    (hkn : (AL.keys s.map).Nodup) (h : Seg d1 u N s) (hm : Mv d2 u s s') :
+    Seg (d1 || d2) u N s' :=
+  Split.trans h hm.split (fun _ hn => hn.mono (hm.mapSub hkn))
+
+theorem Seg.step' {d : Bool} {u : Option Nat} {N : List AoNode} {s s' : SState}
+    (hkn : (AL.keys s.map).Nodup) (h : Seg d u N s) (hm : Mv false u s s') : Seg d u N s' := by
+  have := h.step hkn hm
+  rwa [Bool.or_false] at this
+
+/-! ### removals -/
+
+theorem eraseAo_sublist (l : List AoNode) (id : Nat) : (eraseAo l id).Sublist l := by
+  induction l with
+  | nil => exact List.Sublist.refl _
+  | cons a l ih =>
+    unfold eraseAo
+    by_cases e : a.id = id
+    · rw [if_pos e]; exact List.sublist_cons_self _ _
+    · rw [if_neg e]; exact ih.cons_cons _
+
+theorem unlinkAo_sublist (s : SState) (i : Nat) : (unlinkAo s i).prob.Sublist s.prob := by
+  unfold unlinkAo; split
+  · exact List.Sublist.refl _
+  · dsimp only
+    split
+    · exact eraseAo_sublist _ _
+    · rw [fail_prob]; exact List.Sublist.refl _
+
+theorem subCounters_prob (s : SState) (n w : Nat) : (subCounters s n w).prob = s.prob := by
+  unfold subCounters
+  dsimp only
+  split
+  · exact fail_prob _ _
+  · rfl
+
+theorem handleRemove_sublist (s : SState) (ve : VE) : (handleRemove s ve).prob.Sublist s.prob := by
+  unfold handleRemove
+  dsimp only
+  split
+  · rw [unlinkWo_prob]
+    refine (unlinkAo_sublist _ _).trans ?_
+    rw [subCounters_prob]
+    exact List.Sublist.refl _
+  · exact List.Sublist.refl _
+
+theorem removeVictims_sublist (p : Params) (vs : List AoNode) :
+    ∀ (s : SState) (sk : List AoNode), (removeVictims p vs s sk).1.prob.Sublist s.prob := by
+  induction vs with
+  | nil => intro s sk; exact List.Sublist.refl _
+  | cons v rest ih =>
+    intro s sk
+    unfold removeVictims
+    split
+    · refine (ih _ _).trans ?_
+      rw [fail_prob]; exact List.Sublist.refl _
+    · split
+      · exact (ih _ _).trans (handleRemove_sublist _ _)
+      · exact ih _ _
+
+/-! ### moves -/
+
+theorem Mv.of_eq {u : Option Nat} {s s' : SState} (hp : s'.prob = s.prob) (hf : Frame s s') :
+    Mv false u s s' :=
+  Mv.of_sublist (by rw [hp]; exact List.Sublist.refl _) hf
+
+/-- Nothing moves and no node belongs to the used info. -/
+theorem Mv.of_eq_done {u : Option Nat} {s s' : SState} (hp : s'.prob = s.prob) (hf : Frame s s')
+    (hno : ∀ n, n ∈ s.prob → some n.info ≠ u) : Mv true u s s' :=
+  ⟨⟨s.prob, [], by rw [hp]; simp, List.Sublist.refl _, (fun _ h => by cases h), fun _ => hno⟩,
+   hf.kn, hf.mapSub⟩
+
+theorem frame_of_map_infos {s s' : SState} (hm : s'.map = s.map) (hi : s'.infos = s.infos)
+    (hr : s'.readQ = s.readQ) (hv : s'.va = s.va) (hn : s'.now = s.now)
+    (hx : s.nextId ≤ s'.nextId) : Frame s s' :=
+  (frame0_of_eq hm hi hr hv hn hx).toFrame
+
+theorem moveNodeToBackAo_mv {d : Bool} {u : Option Nat} {s : SState} {id : Nat} {n : AoNode}
+    (hf : findAo s.prob id = some n) (hn : Unst u s n)
+    (hA : d = true → ∀ m, m ∈ eraseAo s.prob id → some m.info ≠ u) :
+    Mv d u s (moveNodeToBackAo s id) := by
+  rw [moveNodeToBackAo_eq hf]
+  refine ⟨⟨eraseAo s.prob id, [n], rfl, eraseAo_sublist _ _, ?_, hA⟩, fun h => h, fun _ _ _ h => h⟩
+  intro m hm
+  simp at hm
+  rw [hm]
+  exact hn
+
+theorem no_node_of_not_admitted {s : SState} (hs : Safe s) {i : Nat}
+    (hna : (getInfo s i).admitted = false) : ∀ n, n ∈ s.prob → n.info ≠ i := by
+  intro n hn e
+  have := hs.probAdm hn
+  rw [e, hna] at this
+  cases this
+
+/-- `move_to_back_ao` of the entry of the used info: its node (if it has one) goes to the
+back, no other node belongs to that info. -/
+theorem moveToBackAoE_mv {u : Option Nat} {s : SState} (hs : Safe s) {i : Nat}
+    (hi : some i = u) : Mv true u s (moveToBackAoE s i) := by
+  unfold moveToBackAoE
+  cases hx : (getInfo s i).ao with
+  | none =>
+    dsimp only
+    refine Mv.of_eq_done rfl (Frame.refl s) ?_
+    intro n hn e
+    have hna : (getInfo s i).admitted = false := by
+      cases ha : (getInfo s i).admitted with
+      | false => rfl
+      | true =>
+        have := (hs.admIff i).mp ha
+        rw [hx] at this; cases this
+    rw [← hi] at e
+    exact no_node_of_not_admitted hs hna n hn (Option.some.inj e)
+  | some id =>
+    dsimp only
+    obtain ⟨n, hf, hni⟩ := hs.toNodesCore.aoFind hx
+    refine moveNodeToBackAo_mv hf (Or.inl (by rw [hni]; exact hi)) ?_
+    intro _ m hm e
+    rw [← hi] at e
+    have hmi : m.info = i := Option.some.inj e
+    obtain ⟨hmp, hmid⟩ := (mem_eraseAo_iff hf hs.probIds m).mp hm
+    have hnp := (findAo_some hf).1
+    have := hs.info_inj hmp hnp (hmi.trans hni.symm)
+    exact hmid (this.trans (findAo_some hf).2)
+
+theorem moveNodeToBackWo_prob (s : SState) (id : Nat) : (moveNodeToBackWo s id).prob = s.prob := by
+  unfold moveNodeToBackWo; split
+  · rfl
+  · exact fail_prob _ _
+
+theorem moveToBackWoE_prob (s : SState) (i : Nat) : (moveToBackWoE s i).prob = s.prob := by
+  unfold moveToBackWoE; split
+  · rfl
+  · exact moveNodeToBackWo_prob _ _
+
+theorem handleAdmit_mv {u : Option Nat} (p : Params) {s : SState} (key : Nat) (hash : UInt64)
+    (ve : VE) (w : Nat) (hi : some ve.info = u) (hno : ∀ n, n ∈ s.prob → some n.info ≠ u) :
+    Mv true u s (handleAdmit p s key hash ve w) := by
+  obtain ⟨a1, a2, _⟩ := handleAdmit_exact p s key hash ve w
+  have hf := (handleAdmit_frame0 p s key hash ve w).toFrame
+  refine ⟨⟨s.prob, [_], a2, List.Sublist.refl _, ?_, fun _ => hno⟩, hf.kn, hf.mapSub⟩
+  intro m hm
+  simp at hm
+  rw [hm]
+  exact Or.inl hi
+
+theorem moveNodeToBackAo_map (s : SState) (id : Nat) : (moveNodeToBackAo s id).map = s.map := by
+  unfold moveNodeToBackAo; split
+  · rfl
+  · exact fail_map _ _
+
+theorem moveSkipped_mv {u : Option Nat} : ∀ (ns : List AoNode) (s : SState), Safe s →
+    (AL.keys s.map).Nodup → (∀ n, n ∈ ns → n ∈ s.prob) → (∀ n, n ∈ ns → Unst u s n) →
+    Mv false u s (moveSkipped ns s) := by
+  intro ns
+  induction ns with
+  | nil => intro s _ _ _ _; exact Mv.refl u s
+  | cons n rest ih =>
+    intro s hs hkn hns hu
+    rw [moveSkipped]
+    have hnp := hns n List.mem_cons_self
+    have hf := findAo_of_mem hs.probIds hnp
+    have m1 : Mv false u s (moveNodeToBackAo s n.id) :=
+      moveNodeToBackAo_mv hf (hu n List.mem_cons_self) (fun h => by cases h)
+    obtain ⟨h1, k1⟩ := moveNodeToBackAo_safe hs hnp
+    have hmap := moveNodeToBackAo_map s n.id
+    have m2 := ih (moveNodeToBackAo s n.id) h1 (by rw [hmap]; exact hkn)
+      (fun m hm => k1 m (hns m (List.mem_cons_of_mem _ hm)))
+      (fun m hm => (hu m (List.mem_cons_of_mem _ hm)).mono (fun k ve h => by rw [hmap] at h; exact h))
+    exact Mv.trans hkn m1 m2
+
+theorem nonCur_of_entryOfNode_none {p : Params} (hd7 : p.q.d7 = false) {s : SState} {n : AoNode}
+    (h : entryOfNode p s n.key n.info = none) : NonCur s n := by
+  intro e he
+  unfold entryOfNode at h
+  rw [he] at h
+  dsimp only at h
+  rw [hd7, Bool.false_or] at h
+  by_cases c : (e.info == n.info) = true
+  · rw [if_pos c] at h; cases h
+  · intro e'; exact c (by rw [e']; exact beq_self_eq_true _)
+
+theorem admitLoop_skipped (p : Params) (s : SState) (cw cf : Nat) :
+    ∀ (l : List AoNode) (a : Admission) (m : AoNode), m ∈ (admitLoop p s cw cf l a).skipped →
+      m ∈ a.skipped ∨ (m ∈ l ∧ entryOfNode p s m.key m.info = none) := by
+  intro l
+  induction l with
+  | nil => intro a m hm; exact Or.inl hm
+  | cons n rest ih =>
+    intro a m hm
+    rw [admitLoop] at hm
+    split at hm
+    · split at hm
+      · rcases ih _ m hm with h | ⟨h1, h2⟩
+        · exact Or.inl h
+        · exact Or.inr ⟨List.mem_cons_of_mem _ h1, h2⟩
+      · rename_i hnone
+        dsimp only at hm
+        split at hm
+        · rcases List.mem_append.mp hm with h | h
+          · exact Or.inl h
+          · simp at h; rw [h]; exact Or.inr ⟨List.mem_cons_self, hnone⟩
+        · rcases ih _ m hm with h | ⟨h1, h2⟩
+          · rcases List.mem_append.mp h with h | h
+            · exact Or.inl h
+            · simp at h; rw [h]; exact Or.inr ⟨List.mem_cons_self, hnone⟩
+          · exact Or.inr ⟨List.mem_cons_of_mem _ h1, h2⟩
+    · exact Or.inl hm
+
+theorem removeVictims_skipped {p : Params} (hd7 : p.q.d7 = false) :
+    ∀ (vs : List AoNode) (s : SState) (sk : List AoNode), (AL.keys s.map).Nodup →
+      ∀ m, m ∈ (removeVictims p vs s sk).2 →
+        m ∈ sk ∨ NonCur (removeVictims p vs s sk).1 m := by
+  intro vs
+  induction vs with
+  | nil => intro s sk _ m hm; exact Or.inl hm
+  | cons v rest ih =>
+    intro s sk hkn m hm
+    cases hf : findAo s.prob v.id with
+    | none =>
+      have e : removeVictims p (v :: rest) s sk =
+          removeVictims p rest (s.fail .useAfterFree) sk := by
+        rw [removeVictims, hf]
+      rw [e] at hm ⊢
+      exact ih _ sk (by rw [fail_map]; exact hkn) m hm
+    | some x =>
+      cases hve : entryOfNode p s v.key v.info with
+      | some ve =>
+        have e : removeVictims p (v :: rest) s sk =
+            removeVictims p rest (handleRemove { s with map := AL.erase s.map v.key } ve) sk := by
+          rw [removeVictims, hf]; dsimp only; rw [hve]
+        rw [e] at hm ⊢
+        refine ih _ sk ?_ m hm
+        exact (handleRemove_frame0 _ _).kn (AL.nodup_erase _ hkn)
+      | none =>
+        have e : removeVictims p (v :: rest) s sk = removeVictims p rest s (sk ++ [v]) := by
+          rw [removeVictims, hf]; dsimp only; rw [hve]
+        rw [e] at hm ⊢
+        rcases ih s (sk ++ [v]) hkn m hm with h | h
+        · rcases List.mem_append.mp h with h | h
+          · exact Or.inl h
+          · simp at h
+            rw [h]
+            exact Or.inr ((nonCur_of_entryOfNode_none hd7 hve).mono
+              ((removeVictims_frame0 p rest s (sk ++ [v])).mapSub hkn))
+        · exact Or.inr h
+
+theorem removeCandidate_prob (p : Params) (s : SState) (key : Nat) (ve : VE) :
+    (removeCandidate p s key ve).prob = s.prob := by
+  unfold removeCandidate
+  split
+  · split <;> rfl
+  · rfl
+
+/-- `admit` and what follows it, for the queued insert of the used info (which is not
+admitted yet): victims leave, the candidate's node (if admitted) and the skipped nodes (which
+are not current) go to the back. -/
+theorem admitOrReject_mv {u : Option Nat} {p : Params} (hd7 : p.q.d7 = false) {s : SState}
+    (hs : Safe s) (hkn : (AL.keys s.map).Nodup) (key : Nat) (hash : UInt64) (ve : VE) (newW : Nat)
+    (hi : some ve.info = u) (hna : (getInfo s ve.info).admitted = false)
+    (hlt : ve.info < s.nextId) : Mv true u s (admitOrReject p s key hash ve newW) := by
+  have hno : ∀ n, n ∈ s.prob → some n.info ≠ u := by
+    intro n hn e
+    rw [← hi] at e
+    exact no_node_of_not_admitted hs hna n hn (Option.some.inj e)
+  unfold admitOrReject
+  dsimp only
+  obtain ⟨vs, ss, h1, h2, h3, h4, h5, h6⟩ :=
+    admitLoop_split p s newW (s.sk.frequency hash) s.prob {} hs.probIds
+  have hsk := admitLoop_skipped p s newW (s.sk.frequency hash) s.prob {}
+  generalize admitLoop p s newW (s.sk.frequency hash) s.prob {} = a at h1 h2 hsk ⊢
+  have e1 : a.victims = vs := by rw [h1]; rfl
+  have e2 : a.skipped = ss := by rw [h2]; rfl
+  have hskN : ∀ m, m ∈ a.skipped → NonCur s m := by
+    intro m hm
+    rcases hsk m hm with h | ⟨_, h⟩
+    · cases h
+    · exact nonCur_of_entryOfNode_none hd7 h
+  split
+  · have hfr := removeVictims_frame0 p a.victims s a.skipped
+    have hrv := removeVictims_safe hd7 a.victims s a.skipped hs (by rw [e1]; exact h3)
+      (by rw [e2]; exact h4) (by rw [e1]; exact h5) (by rw [e1, e2]; exact h6)
+    have hsub := removeVictims_sublist p a.victims s a.skipped
+    have hskp := removeVictims_skipped hd7 a.victims s a.skipped hkn
+    generalize removeVictims p a.victims s a.skipped = r at hfr hrv hsub hskp ⊢
+    obtain ⟨s1, sk1⟩ := r
+    obtain ⟨r1, r2, r3⟩ := hrv
+    dsimp only at r1 r2 r3 hfr hsub hskp ⊢
+    have hkn1 := hfr.kn hkn
+    have m1 : Mv false u s s1 := Mv.of_sublist hsub hfr.toFrame
+    have hno1 : ∀ n, n ∈ s1.prob → some n.info ≠ u := fun n hn => hno n (hsub.subset hn)
+    have m2 : Mv true u s1 (handleAdmit p s1 key hash ve newW) :=
+      handleAdmit_mv p key hash ve newW hi hno1
+    obtain ⟨a1, a2⟩ := handleAdmit_safe (p := p) r1 key hash ve newW (r3 _ hna)
+      (Nat.lt_of_lt_of_le hlt hfr.nextId)
+    have hmap3 := (handleAdmit_exact p s1 key hash ve newW).1
+    have m3 : Mv false u (handleAdmit p s1 key hash ve newW)
+        (moveSkipped sk1 (handleAdmit p s1 key hash ve newW)) := by
+      refine moveSkipped_mv sk1 _ a1 (by rw [hmap3]; exact hkn1) (fun n hn => a2 n (r2 n hn)) ?_
+      intro m hm
+      refine Or.inr (NonCur.mono (s := s1) (fun k ve' h => by rw [hmap3] at h; exact h) ?_)
+      rcases hskp m hm with h | h
+      · exact (hskN m h).mono (hfr.mapSub hkn)
+      · exact h
+    have := (Mv.trans hkn m1 m2).trans hkn m3
+    simpa using this
+  · have hf := (removeCandidate_frame0 p s key ve).toFrame
+    have m1 : Mv true u s (removeCandidate p s key ve) :=
+      Mv.of_eq_done (removeCandidate_prob p s key ve) hf hno
+    obtain ⟨c1, c2⟩ := removeCandidate_safe (p := p) hs key ve
+    have m2 : Mv false u (removeCandidate p s key ve)
+        (moveSkipped a.skipped (removeCandidate p s key ve)) := by
+      refine moveSkipped_mv a.skipped _ c1 (hf.kn hkn)
+        (fun n hn => c2 n (h4 n (by rw [← e2]; exact hn))) ?_
+      intro m hm
+      exact Or.inr ((hskN m hm).mono (hf.mapSub hkn))
+    have := Mv.trans hkn m1 m2
+    simpa using this
+
+theorem applyUpdate_mv {u : Option Nat} (p : Params) {s : SState} (hs : Safe s) (ve : VE)
+    (oldW newW : Nat) (hi : some ve.info = u) : Mv true u s (applyUpdate p s ve oldW newW) := by
+  unfold applyUpdate
+  dsimp only
+  rw [subCounters_eq (Nat.zero_le _)]
+  generalize hs3 : (if p.q.d8 = true then
+      addCounters { s with cec := s.cec - 0, cws := s.cws - (if p.q.d8 = true then oldW
+        else (getInfo s ve.info).weight) } 0 newW
+    else withInfo (addCounters { s with cec := s.cec - 0, cws := s.cws - (if p.q.d8 = true then oldW
+        else (getInfo s ve.info).weight) } 0 newW) ve.info (fun i => { i with weight := newW })) = s3
+  have h3 : Safe s3 := by
+    rw [← hs3]
+    have h2 : ∀ w, Safe (addCounters { s with cec := s.cec - 0, cws := w } 0 newW) :=
+      fun w => hs.of_eq rfl rfl rfl (Nat.le_refl _) rfl rfl
+    split
+    · exact h2 _
+    · exact (h2 _).withInfo _ _ rfl rfl rfl
+  have hp3 : s3.prob = s.prob := by rw [← hs3]; split <;> rfl
+  have hf3 : Frame s s3 := by
+    rw [← hs3]
+    split
+    · exact frame_of_map_infos rfl rfl rfl rfl rfl (Nat.le_refl _)
+    · refine Frame.trans ?_ (frame0_withInfo' _ _ _).toFrame
+      exact frame_of_map_infos rfl rfl rfl rfl rfl (Nat.le_refl _)
+  have m1 : Mv false u s s3 := Mv.of_eq hp3 hf3
+  have m2 : Mv true u s3 (moveToBackAoE s3 ve.info) := moveToBackAoE_mv h3 hi
+  have m3 : Mv false u (moveToBackAoE s3 ve.info) (moveToBackWoE (moveToBackAoE s3 ve.info) ve.info) :=
+    Mv.of_eq (moveToBackWoE_prob _ _) (moveToBackWoE_frame0 _ _).toFrame
+  refine ⟨?_, fun h => m3.kn (m2.kn (m1.kn h)),
+    fun hn k v h => m1.mapSub hn k v (m2.mapSub (m1.kn hn) k v (m3.mapSub (m2.kn (m1.kn hn)) k v h))⟩
+  -- the maps of all these states are that of `s`: monotonicity of `Unst` is trivial
+  have hm3 : s3.map = s.map := by rw [← hs3]; split <;> rfl
+  have hma : (moveToBackAoE s3 ve.info).map = s3.map := by
+    unfold moveToBackAoE; split
+    · rfl
+    · exact moveNodeToBackAo_map _ _
+  have := (m1.split.trans m2.split (fun n h => h.mono (fun k v h' => by rw [hma] at h'; exact h'))).trans
+    m3.split (fun n h => h.mono (fun k v h' => by
+      have : (moveToBackWoE (moveToBackAoE s3 ve.info) ve.info).map = (moveToBackAoE s3 ve.info).map := by
+        unfold moveToBackWoE; split
+        · rfl
+        · unfold moveNodeToBackWo; split
+          · rfl
+          · exact fail_map _ _
+      rw [this] at h'; exact h'))
+  simpa using this
+
+/-- `handle_upsert` for a queued insert of the used info. -/
+theorem handleUpsert_mv {u : Option Nat} {p : Params} (hq : NoQuirks p) {s : SState}
+    (hs : Safe s) (hm : MapOK s) (key : Nat) (hash : UInt64) (ve : VE) (oldW newW : Nat)
+    (hi : some ve.info = u) : Mv true u s (handleUpsert p s key hash ve oldW newW) := by
+  have hd7 : p.q.d7 = false := by rw [hq]
+  unfold handleUpsert
+  dsimp only
+  generalize currentWeight p s key ve newW = nw
+  have h1 : Safe (withInfo s ve.info (fun i => { i with dirty := false })) :=
+    hs.withInfo _ _ rfl rfl rfl
+  have hm1 : MapOK (withInfo s ve.info (fun i => { i with dirty := false })) :=
+    ⟨hm.kn, hm.bound⟩
+  have m0 : Mv false u s (withInfo s ve.info (fun i => { i with dirty := false })) :=
+    Mv.of_eq rfl (frame0_withInfo' _ _ _).toFrame
+  generalize withInfo s ve.info (fun i => { i with dirty := false }) = s1 at h1 hm1 m0 ⊢
+  have fin : ∀ {s2 : SState}, Mv true u s1 s2 → Mv true u s s2 := by
+    intro s2 h
+    have := Mv.trans hm.kn m0 h
+    simpa using this
+  by_cases c1 : (getInfo s1 ve.info).admitted = true
+  · rw [if_pos c1]; exact fin (applyUpdate_mv p h1 ve oldW nw hi)
+  · rw [if_neg c1]
+    have hna : (getInfo s1 ve.info).admitted = false := by
+      cases hx : (getInfo s1 ve.info).admitted with
+      | false => rfl
+      | true => exact absurd hx c1
+    have hno : ∀ n, n ∈ s1.prob → some n.info ≠ u := by
+      intro n hn e
+      rw [← hi] at e
+      exact no_node_of_not_admitted h1 hna n hn (Option.some.inj e)
+    by_cases c2 : (!p.q.d7 && !isCurrentEntry s1 key ve) = true
+    · rw [if_pos c2]; exact fin (Mv.of_eq_done rfl (Frame.refl _) hno)
+    · rw [if_neg c2]
+      have hlt : ve.info < s1.nextId := by
+        rw [hd7] at c2
+        unfold isCurrentEntry at c2
+        cases hg : AL.get? s1.map key with
+        | none => rw [hg] at c2; simp at c2
+        | some cur =>
+          rw [hg] at c2
+          have : cur.info = ve.info := by simpa using c2
+          rw [← this]; exact hm1.bound key cur hg
+      by_cases c3 : hasEnoughCapacity p nw s1 = true
+      · rw [if_pos c3]; exact fin (handleAdmit_mv p key hash ve nw hi hno)
+      · rw [if_neg c3]
+        by_cases c4 : tooBig p nw = true
+        · rw [if_pos c4]
+          exact fin (Mv.of_eq_done (removeCandidate_prob p s1 key ve)
+            (removeCandidate_frame0 p s1 key ve).toFrame hno)
+        · rw [if_neg c4]
+          exact fin (admitOrReject_mv hd7 h1 hm1.kn key hash ve nw hi hna hlt)
+
+/-! ### the queues of a segment: every recorded hit and queued insert is of the used info -/
+
+def isUpsert : WOp → Bool
+  | .upsert _ _ _ _ _ => true
+  | .remove _ _ => false
+
+def isHit : ROp → Bool
+  | .hit _ _ _ => true
+  | .miss _ => false
+
+def WQU (u : Option Nat) (q : List WOp) : Prop :=
+  ∀ key hash ve o w, WOp.upsert key hash ve o w ∈ q → some ve.info = u
+
+def RQU (u : Option Nat) (q : List ROp) : Prop :=
+  ∀ hash ve ts, ROp.hit hash ve ts ∈ q → some ve.info = u
+
+theorem Mv.cast {d d' : Bool} {u : Option Nat} {s s' : SState} (h : Mv d u s s') (e : d = d') :
+    Mv d' u s s' := e ▸ h
+
+theorem handleRemove_mv {u : Option Nat} (s : SState) (ve : VE) :
+    Mv false u s (handleRemove s ve) :=
+  Mv.of_sublist (handleRemove_sublist s ve) (handleRemove_frame0 s ve).toFrame
+
+theorem applyWrite_mv {u : Option Nat} {p : Params} (hq : NoQuirks p) {s : SState} (hs : Safe s)
+    (hm : MapOK s) (op : WOp) (hop : WQU u [op]) :
+    Mv (isUpsert op) u s (applyWrite p s op) := by
+  cases op with
+  | upsert key hash ve oldW newW =>
+    exact handleUpsert_mv hq hs hm key hash ve oldW newW
+      (hop key hash ve oldW newW List.mem_cons_self)
+  | remove key ve => exact handleRemove_mv s ve
+
+theorem applyWrites_mv {u : Option Nat} {p : Params} (hq : NoQuirks p) (n : Nat) :
+    ∀ (s : SState), Safe s → MapOK s → WQU u s.writeQ →
+      Mv ((s.writeQ.take n).any isUpsert) u s (applyWrites p n s) := by
+  induction n with
+  | zero => intro s _ _ _; exact Mv.refl u s
+  | succ n ih =>
+    intro s hs hm hw
+    unfold applyWrites
+    split
+    · rename_i hq0
+      rw [hq0]; exact Mv.refl u s
+    · rename_i op rest hq0
+      have h0 : Safe { s with writeQ := rest } := safe_setWriteQ hs rest
+      have hm0 : MapOK { s with writeQ := rest } := ⟨hm.kn, hm.bound⟩
+      have m0 : Mv false u s { s with writeQ := rest } :=
+        Mv.of_eq rfl (frame0_set_writeQ s rest).toFrame
+      have hop : WQU u [op] := by
+        intro key hash ve o w hmem
+        simp at hmem
+        exact hw key hash ve o w (by rw [hq0, hmem]; exact List.mem_cons_self)
+      have m1 := applyWrite_mv hq h0 hm0 op hop
+      have h1 := applyWrite_safe hq h0 hm0 op
+      have hm1 := hm0.frame0 (applyWrite_frame0 p _ op)
+      have hwq1 : (applyWrite p { s with writeQ := rest } op).writeQ = rest :=
+        (applyWrite_qframe p { s with writeQ := rest } op).writeQ
+      have m2 := ih _ h1 hm1 (by
+        rw [hwq1]
+        intro key hash ve o w hmem
+        exact hw key hash ve o w (by rw [hq0]; exact List.mem_cons_of_mem _ hmem))
+      rw [hwq1] at m2
+      have := (Mv.trans hm.kn m0 m1).trans hm.kn m2
+      refine this.cast ?_
+      rw [hq0, List.take_succ_cons, List.any_cons, Bool.false_or]
+
+theorem Mv.of_eq_map {u : Option Nat} {s s' : SState} (hp : s'.prob = s.prob)
+    (hm : s'.map = s.map) : Mv false u s s' :=
+  ⟨Split.of_sublist (by rw [hp]; exact List.Sublist.refl _), fun h => by rw [hm]; exact h,
+   fun _ k ve h => by rw [hm] at h; exact h⟩
+
+theorem Mv.of_eq_map_done {u : Option Nat} {s s' : SState} (hp : s'.prob = s.prob)
+    (hm : s'.map = s.map) (hno : ∀ n, n ∈ s.prob → some n.info ≠ u) : Mv true u s s' :=
+  ⟨⟨s.prob, [], by rw [hp]; simp, List.Sublist.refl _, (fun _ h => by cases h), fun _ => hno⟩,
+   fun h => by rw [hm]; exact h, fun _ k ve h => by rw [hm] at h; exact h⟩
+
+theorem applyRead_mv {u : Option Nat} {p : Params} (hq : NoQuirks p) {s : SState} (hs : Safe s)
+    (hkn : (AL.keys s.map).Nodup) (hk : SkOK Sketch.Good s) (op : ROp) (hop : RQU u [op]) :
+    Mv (isHit op) u s (applyRead p s op) := by
+  have hd6 : p.q.d6 = false := by rw [hq]
+  cases op with
+  | miss hash =>
+    obtain ⟨sk', e, _, _⟩ := sketchIncrement_spec sketchLaws hq hk.sk hash
+    show Mv false u s (sketchIncrement p s hash)
+    rw [e]
+    exact Mv.of_eq_map rfl rfl
+  | hit hash ve ts =>
+    obtain ⟨sk', e, _, _⟩ := sketchIncrement_spec sketchLaws hq hk.sk hash
+    have hi : some ve.info = u := hop hash ve ts List.mem_cons_self
+    show Mv true u s (applyRead p s (.hit hash ve ts))
+    unfold applyRead
+    simp only [hd6, Bool.false_eq_true, if_false]
+    obtain ⟨h1, _⟩ := sketchIncrement_inv sketchLaws hq hs hk hash
+    have m1 : Mv false u s (sketchIncrement p s hash) := by
+      rw [e]; exact Mv.of_eq_map rfl rfl
+    generalize sketchIncrement p s hash = s1 at h1 m1 ⊢
+    have h2 : Safe (if (getInfo s1 ve.info).la < ts
+        then withInfo s1 ve.info (fun i => { i with la := ts }) else s1) ∧
+        Mv false u s1 (if (getInfo s1 ve.info).la < ts
+        then withInfo s1 ve.info (fun i => { i with la := ts }) else s1) := by
+      split
+      · exact ⟨h1.withInfo _ _ rfl rfl rfl, Mv.of_eq_map rfl rfl⟩
+      · exact ⟨h1, Mv.refl u s1⟩
+    generalize (if (getInfo s1 ve.info).la < ts
+        then withInfo s1 ve.info (fun i => { i with la := ts }) else s1) = s2 at h2 ⊢
+    have m12 : Mv false u s s2 := by
+      have := Mv.trans hkn m1 h2.2
+      simpa using this
+    by_cases ha : (getInfo s2 ve.info).admitted = true
+    · rw [if_pos ha]
+      have := Mv.trans hkn m12 (moveToBackAoE_mv h2.1 hi)
+      simpa using this
+    · rw [if_neg ha]
+      have hna : (getInfo s2 ve.info).admitted = false := by
+        cases hx : (getInfo s2 ve.info).admitted with
+        | false => rfl
+        | true => exact absurd hx ha
+      have hno : ∀ n, n ∈ s2.prob → some n.info ≠ u := by
+        intro n hn e'
+        rw [← hi] at e'
+        exact no_node_of_not_admitted h2.1 hna n hn (Option.some.inj e')
+      have := Mv.trans hkn m12 (Mv.of_eq_map_done rfl rfl hno)
+      simpa using this
+
+theorem applyReads_mv {u : Option Nat} {p : Params} (hq : NoQuirks p) (n : Nat) :
+    ∀ (s : SState), Safe s → (AL.keys s.map).Nodup → SkOK Sketch.Good s → RQU u s.readQ →
+      Mv ((s.readQ.take n).any isHit) u s (applyReads p n s) := by
+  induction n with
+  | zero => intro s _ _ _ _; exact Mv.refl u s
+  | succ n ih =>
+    intro s hs hkn hk hr
+    unfold applyReads
+    split
+    · rename_i hq0
+      rw [hq0]; exact Mv.refl u s
+    · rename_i op rest hq0
+      have h0 : Safe { s with readQ := rest } := hs.of_eq rfl rfl rfl (Nat.le_refl _) rfl rfl
+      have k0 : SkOK Sketch.Good { s with readQ := rest } := ⟨hk.sk, hk.skOff⟩
+      have m0 : Mv false u s { s with readQ := rest } := Mv.of_eq_map rfl rfl
+      have hop : RQU u [op] := by
+        intro hash ve ts hmem
+        simp at hmem
+        exact hr hash ve ts (by rw [hq0, hmem]; exact List.mem_cons_self)
+      have m1 := applyRead_mv hq h0 hkn k0 op hop
+      obtain ⟨h1, k1⟩ := applyRead_inv sketchLaws hq h0 k0 op
+      have hrq1 : (applyRead p { s with readQ := rest } op).readQ = rest :=
+        (applyRead_qframe p { s with readQ := rest } op).readQ
+      have m2 := ih _ h1 (m1.kn hkn) k1 (by
+        rw [hrq1]
+        intro hash ve ts hmem
+        exact hr hash ve ts (by rw [hq0]; exact List.mem_cons_of_mem _ hmem))
+      rw [hrq1] at m2
+      have := (Mv.trans hkn m0 m1).trans hkn m2
+      refine this.cast ?_
+      rw [hq0, List.take_succ_cons, List.any_cons, Bool.false_or]
+
+/-! ### eviction: only unstable nodes are skipped -/
+
+/-- Within a segment, a dirty entry of the map belongs to the used info. -/
+def DirtyOk (u : Option Nat) (s : SState) : Prop :=
+  ∀ k e, AL.get? s.map k = some e → (getInfo s e.info).dirty = true → some e.info = u
+
+theorem DirtyOk.step {u : Option Nat} {s s' : SState} (h : DirtyOk u s)
+    (hkn : (AL.keys s.map).Nodup) (hd : ∀ j, (getInfo s' j).dirty = true → (getInfo s j).dirty = true)
+    (hsub : (AL.keys s.map).Nodup → ∀ k ve, AL.get? s'.map k = some ve → AL.get? s.map k = some ve) :
+    DirtyOk u s' :=
+  fun k e he hdirty => h k e (hsub hkn k e he) (hd _ hdirty)
+
+/-- What the eviction loops keep. -/
+structure RI (u : Option Nat) (s : SState) : Prop where
+  safe : Safe s
+  mapok : MapOK s
+  dirty : DirtyOk u s
+
+theorem RI.next {u : Option Nat} {s s' : SState} (h : RI u s) (hs : Safe s') (hf : Frame0 s s')
+    (hsub : Sub s s') : RI u s' :=
+  ⟨hs, h.mapok.frame0 hf, h.dirty.step h.mapok.kn hsub.dirty hf.mapSub⟩
+
+theorem RI.remove {u : Option Nat} {s : SState} (h : RI u s) (k : Nat) (ve : VE) :
+    RI u (handleRemove { s with map := AL.erase s.map k } ve) ∧
+    Mv false u s (handleRemove { s with map := AL.erase s.map k } ve) := by
+  have hf : Frame0 s (handleRemove { s with map := AL.erase s.map k } ve) :=
+    (frame0_erase s k).trans (handleRemove_frame0 _ _)
+  refine ⟨h.next (handleRemove_safe (safe_eraseMap h.safe k) ve).1 hf
+    ((sub_erase s k).trans (handleRemove_sub _ _)), ?_⟩
+  exact Mv.of_sublist (handleRemove_sublist _ _) hf.toFrame
+
+theorem moveToBackAoE_map (s : SState) (i : Nat) : (moveToBackAoE s i).map = s.map := by
+  unfold moveToBackAoE; split
+  · rfl
+  · exact moveNodeToBackAo_map _ _
+
+theorem moveNodeToBackWo_map (s : SState) (id : Nat) : (moveNodeToBackWo s id).map = s.map := by
+  unfold moveNodeToBackWo; split
+  · rfl
+  · exact fail_map _ _
+
+theorem moveToBackWoE_map (s : SState) (i : Nat) : (moveToBackWoE s i).map = s.map := by
+  unfold moveToBackWoE; split
+  · rfl
+  · exact moveNodeToBackWo_map _ _
+
+/-- Moving the nodes of a dirty entry back (`try_skip_updated_entry`, `remove_expired_wo`). -/
+theorem RI.touch {u : Option Nat} {s : SState} (h : RI u s) {k : Nat} {ve : VE}
+    (hg : AL.get? s.map k = some ve) (hd : (getInfo s ve.info).dirty = true) :
+    RI u (moveToBackWoE (moveToBackAoE s ve.info) ve.info) ∧
+    Mv false u s (moveToBackWoE (moveToBackAoE s ve.info) ve.info) := by
+  have hi := h.dirty k ve hg hd
+  obtain ⟨s1, _⟩ := moveToBackAoE_safe h.safe ve.info
+  obtain ⟨s2, _⟩ := moveToBackWoE_safe s1 ve.info
+  refine ⟨h.next s2 ((moveToBackAoE_frame0 _ _).trans (moveToBackWoE_frame0 _ _))
+    ((moveToBackAoE_sub _ _).trans (moveToBackWoE_sub _ _)), ?_⟩
+  have m1 : Mv true u s (moveToBackAoE s ve.info) := moveToBackAoE_mv h.safe hi
+  have m2 : Mv false u (moveToBackAoE s ve.info) (moveToBackWoE (moveToBackAoE s ve.info) ve.info) :=
+    Mv.of_eq_map (moveToBackWoE_prob _ _) (moveToBackWoE_map _ _)
+  exact (Mv.trans h.mapok.kn m1 m2).weaken
+
+theorem RI.skip {u : Option Nat} {s : SState} (h : RI u s) (key : Nat)
+    (hk : ∀ n rest, s.prob = n :: rest → n.key = key) :
+    RI u (trySkipUpdated s key).1 ∧ Mv false u s (trySkipUpdated s key).1 := by
+  have hri : RI u (trySkipUpdated s key).1 :=
+    h.next (trySkipUpdated_safe h.safe key) (trySkipUpdated_frame0 s key) (trySkipUpdated_sub s key)
+  refine ⟨hri, ?_⟩
+  unfold trySkipUpdated
+  cases hg : AL.get? s.map key with
+  | some ve =>
+    dsimp only
+    by_cases hd : (getInfo s ve.info).dirty = true
+    · rw [if_pos hd]; exact (h.touch hg hd).2
+    · rw [if_neg hd]; exact Mv.refl u s
+  | none =>
+    dsimp only
+    cases hp : s.prob with
+    | nil => exact Mv.refl u s
+    | cons n rest =>
+      dsimp only
+      have hf : findAo s.prob n.id = some n := by rw [hp]; simp [findAo]
+      refine moveNodeToBackAo_mv hf (Or.inr ?_) (fun hx => by cases hx)
+      intro e he
+      rw [hk n rest hp, hg] at he
+      cases he
+
+theorem Mv.trans' {u : Option Nat} {a b c : SState} (hkn : (AL.keys a.map).Nodup)
+    (h1 : Mv false u a b) (h2 : Mv false u b c) : Mv false u a c :=
+  (Mv.trans hkn h1 h2).cast rfl
+
+theorem removeExpiredAo_mv {u : Option Nat} (p : Params) (n : Nat) :
+    ∀ (s : SState), RI u s → Mv false u s (removeExpiredAo p n s) := by
+  induction n with
+  | zero => intro s _; exact Mv.refl u s
+  | succ n ih =>
+    intro s h
+    unfold removeExpiredAo
+    split
+    · exact Mv.refl u s
+    · rename_i nd rest hp
+      split
+      · dsimp only
+        split
+        · rename_i ve _
+          obtain ⟨r1, m1⟩ := h.remove nd.key ve
+          exact Mv.trans' h.mapok.kn m1 (ih _ r1)
+        · obtain ⟨r1, m1⟩ := h.skip nd.key (fun n' rest' e => by
+            rw [hp] at e; cases e; rfl)
+          split
+          · exact Mv.trans' h.mapok.kn m1 (ih _ r1)
+          · exact m1
+      · exact Mv.refl u s
+
+theorem removeExpiredWo_mv {u : Option Nat} (p : Params) (n : Nat) :
+    ∀ (s : SState), RI u s → Mv false u s (removeExpiredWo p n s) := by
+  induction n with
+  | zero => intro s _; exact Mv.refl u s
+  | succ n ih =>
+    intro s h
+    unfold removeExpiredWo
+    split
+    · exact Mv.refl u s
+    · rename_i nd rest hp
+      split
+      · dsimp only
+        split
+        · rename_i ve _
+          obtain ⟨r1, m1⟩ := h.remove nd.key ve
+          exact Mv.trans' h.mapok.kn m1 (ih _ r1)
+        · split
+          · rename_i ve hg
+            split
+            · rename_i hd
+              obtain ⟨r1, m1⟩ := h.touch hg hd
+              exact Mv.trans' h.mapok.kn m1 (ih _ r1)
+            · exact Mv.refl u s
+          · have r1 : RI u (moveNodeToBackWo s nd.id) :=
+              h.next (moveNodeToBackWo_safe h.safe (by rw [hp]; exact List.mem_cons_self)).1
+                (moveNodeToBackWo_frame0 _ _) (moveNodeToBackWo_sub _ _)
+            have m1 : Mv false u s (moveNodeToBackWo s nd.id) :=
+              Mv.of_eq_map (moveNodeToBackWo_prob _ _) (moveNodeToBackWo_map _ _)
+            exact Mv.trans' h.mapok.kn m1 (ih _ r1)
+      · exact Mv.refl u s
+
+theorem evictExpired_ri {u : Option Nat} (p : Params) {s : SState} (h : RI u s) :
+    RI u (evictExpired p s) :=
+  h.next (evictExpired_safe p h.safe) (evictExpired_frame0 p s) (evictExpired_sub p s)
+
+theorem evictExpired_mv {u : Option Nat} (p : Params) {s : SState} (h : RI u s) :
+    Mv false u s (evictExpired p s) := by
+  unfold evictExpired
+  dsimp only
+  have h1 : RI u (if p.ttl.isSome = true then removeExpiredWo p Gen.SYNC_EVICTION_BATCH_SIZE s else s) ∧
+      Mv false u s (if p.ttl.isSome = true then removeExpiredWo p Gen.SYNC_EVICTION_BATCH_SIZE s
+        else s) := by
+    split
+    · exact ⟨h.next (removeExpiredWo_safe p _ _ h.safe) (removeExpiredWo_frame0 p _ _)
+        (removeExpiredWo_sub p _ _), removeExpiredWo_mv p _ _ h⟩
+    · exact ⟨h, Mv.refl u s⟩
+  generalize (if p.ttl.isSome = true then removeExpiredWo p Gen.SYNC_EVICTION_BATCH_SIZE s
+    else s) = s1 at h1 ⊢
+  split
+  · exact Mv.trans' h.mapok.kn h1.2 (removeExpiredAo_mv p _ _ h1.1)
+  · exact h1.2
+
+theorem evictLruLoop_mv {u : Option Nat} (p : Params) (n : Nat) :
+    ∀ (s : SState) (wte ev : Nat), RI u s → Mv false u s (evictLruLoop p n s wte ev) := by
+  induction n with
+  | zero => intro s _ _ _; exact Mv.refl u s
+  | succ n ih =>
+    intro s wte ev h
+    unfold evictLruLoop
+    split
+    · exact Mv.refl u s
+    · split
+      · exact Mv.refl u s
+      · rename_i nd rest hp
+        have hk : ∀ n' rest', s.prob = n' :: rest' → n'.key = nd.key := fun n' rest' e => by
+          rw [hp] at e; cases e; rfl
+        dsimp only
+        split
+        · obtain ⟨r1, m1⟩ := h.skip nd.key hk
+          split
+          · exact Mv.trans' h.mapok.kn m1 (ih _ _ _ r1)
+          · exact m1
+        · split
+          · rename_i ve _
+            obtain ⟨r1, m1⟩ := h.remove nd.key ve
+            exact Mv.trans' h.mapok.kn m1 (ih _ _ _ r1)
+          · obtain ⟨r1, m1⟩ := h.skip nd.key hk
+            split
+            · exact Mv.trans' h.mapok.kn m1 (ih _ _ _ r1)
+            · exact m1
+
+/-! ### a maintenance run as seen by the access order -/
+
+theorem applyWrites_dm (p : Params) (n : Nat) : ∀ (s : SState) (j : Nat),
+    (getInfo (applyWrites p n s) j).dirty = true → (getInfo s j).dirty = true := by
+  induction n with
+  | zero => intro s j h; exact h
+  | succ n ih =>
+    intro s j h
+    unfold applyWrites at h
+    split at h
+    · exact h
+    · rename_i op rest _
+      have h1 := ih _ j h
+      cases op with
+      | upsert key hash ve oldW newW =>
+        exact (handleUpsert_subc p { s with writeQ := rest } key hash ve oldW newW).dirty j h1
+      | remove key ve => exact (handleRemove_sub { s with writeQ := rest } ve).dirty j h1
+
+theorem any_take_length {α : Type} (l : List α) (f : α → Bool) :
+    (l.take l.length).any f = l.any f := by rw [List.take_length]
+
+/-- The body of the loop of `Inner::sync` within a segment. -/
+theorem syncPass_mv {u : Option Nat} {p : Params} (hq : NoQuirks p) {s0 : SState}
+    (h0 : RunInv Sketch.Good s0) (hr0 : RQU u s0.readQ) (hw0 : WQU u s0.writeQ)
+    (d0 : DirtyOk u s0) :
+    RI u (syncPass p s0) ∧
+    Mv (s0.readQ.any isHit || s0.writeQ.any isUpsert) u s0 (syncPass p s0) := by
+  unfold syncPass
+  dsimp only
+  have h1 : RunInv Sketch.Good (if s0.readQ.length > 0 then applyReads p s0.readQ.length s0 else s0) ∧
+      Mv (s0.readQ.any isHit) u s0
+        (if s0.readQ.length > 0 then applyReads p s0.readQ.length s0 else s0) ∧
+      DirtyOk u (if s0.readQ.length > 0 then applyReads p s0.readQ.length s0 else s0) ∧
+      (if s0.readQ.length > 0 then applyReads p s0.readQ.length s0 else s0).writeQ = s0.writeQ := by
+    split
+    · obtain ⟨a, b⟩ := applyReads_inv sketchLaws hq s0.readQ.length s0 h0.safe h0.sk
+      have hf := applyReads_frame hq s0.readQ.length s0
+      refine ⟨⟨a, h0.map.frame hf, b⟩, ?_, ?_, applyReads_writeQ p _ _⟩
+      · exact (applyReads_mv hq _ s0 h0.safe h0.map.kn h0.sk hr0).cast (any_take_length _ _)
+      · exact d0.step h0.map.kn (applyReads_sub p _ _).dirty hf.mapSub
+    · rename_i hlen
+      have : s0.readQ = [] := by
+        cases hq0 : s0.readQ with
+        | nil => rfl
+        | cons a t => rw [hq0] at hlen; exact absurd (Nat.succ_pos _) hlen
+      refine ⟨h0, ?_, d0, rfl⟩
+      rw [this]; exact Mv.refl u s0
+  generalize (if s0.readQ.length > 0 then applyReads p s0.readQ.length s0 else s0) = s1 at h1 ⊢
+  obtain ⟨r1, m1, d1, w1⟩ := h1
+  have h2 : RunInv Sketch.Good (if s1.writeQ.length > 0 then applyWrites p s1.writeQ.length s1 else s1) ∧
+      Mv (s0.writeQ.any isUpsert) u s1
+        (if s1.writeQ.length > 0 then applyWrites p s1.writeQ.length s1 else s1) ∧
+      DirtyOk u (if s1.writeQ.length > 0 then applyWrites p s1.writeQ.length s1 else s1) := by
+    split
+    · have hf := applyWrites_frame0 p s1.writeQ.length s1
+      refine ⟨⟨applyWrites_safe hq _ _ r1.safe r1.map, r1.map.frame0 hf,
+        r1.sk.same (applyWrites_sk _ _ _)⟩, ?_, ?_⟩
+      · have := applyWrites_mv (u := u) hq s1.writeQ.length s1 r1.safe r1.map (by rw [w1]; exact hw0)
+        exact this.cast (by rw [any_take_length, w1])
+      · exact d1.step r1.map.kn (applyWrites_dm p _ _) hf.mapSub
+    · rename_i hlen
+      have : s0.writeQ = [] := by
+        rw [← w1]
+        cases hq0 : s1.writeQ with
+        | nil => rfl
+        | cons a t => rw [hq0] at hlen; exact absurd (Nat.succ_pos _) hlen
+      refine ⟨r1, ?_, d1⟩
+      rw [this]; exact Mv.refl u s1
+  generalize (if s1.writeQ.length > 0 then applyWrites p s1.writeQ.length s1 else s1) = s2 at h2 ⊢
+  obtain ⟨r2, m2, d2⟩ := h2
+  have c2 := Mv.trans h0.map.kn m1 m2
+  split
+  · have hsame := enableSketch_same p s2
+    refine ⟨⟨enableSketch_safe p r2.safe, r2.map.frame0 (enableSketch_frame0 _ _),
+      d2.step r2.map.kn (enableSketch_sub p s2).dirty (enableSketch_frame0 _ _).mapSub⟩, ?_⟩
+    have := Mv.trans h0.map.kn c2 (Mv.of_eq_map (u := u) hsame.prob hsame.map)
+    exact this.cast (by simp)
+  · exact ⟨⟨r2.safe, r2.map, d2⟩, c2⟩
+
+/-- `Inner::sync` within a segment: only unstable nodes move; if a hit or an insert of the used
+info was queued, its node is unstable from now on (`d = true`). -/
+theorem syncRun_mv {u : Option Nat} {p : Params} (hq : NoQuirks p)
+    {s : SState} (h : TopInv Sketch.Good s) (hr : RQU u s.readQ) (hw : WQU u s.writeQ)
+    (hd : DirtyOk u s) :
+    Mv (s.readQ.any isHit || s.writeQ.any isUpsert) u s (syncRun p s) ∧
+    DirtyOk u (syncRun p s) := by
+  rw [syncRun_eq]
+  dsimp only
+  have hkn := h.map.kn
+  have h0 : RunInv Sketch.Good { s with cec := s.ec, cws := s.ws } :=
+    ⟨⟨⟨h.nodes.toNodesCore.congr (fun _ => rfl) (fun _ => rfl) (fun _ => rfl) (List.Perm.refl _)
+        (List.Perm.refl _) (Nat.le_refl _), h.nodes.count⟩, h.nofault⟩,
+     ⟨h.map.kn, h.map.bound⟩, ⟨h.sk.sk, h.sk.skOff⟩⟩
+  have m0 : Mv false u s { s with cec := s.ec, cws := s.ws } := Mv.of_eq_map rfl rfl
+  obtain ⟨r3, m3⟩ := syncPass_mv (u := u) hq h0 hr hw hd
+  have m3' : Mv (s.readQ.any isHit || s.writeQ.any isUpsert) u
+      { s with cec := s.ec, cws := s.ws } (syncPass p { s with cec := s.ec, cws := s.ws }) := m3
+  generalize syncPass p { s with cec := s.ec, cws := s.ws } = s3 at r3 m3' ⊢
+  have h4 : RI u (if (p.hasExpiry || s3.va.isSome) = true then evictExpired p s3 else s3) ∧
+      Mv false u s3 (if (p.hasExpiry || s3.va.isSome) = true then evictExpired p s3 else s3) := by
+    split
+    · exact ⟨evictExpired_ri p r3, evictExpired_mv p r3⟩
+    · exact ⟨r3, Mv.refl u s3⟩
+  generalize (if (p.hasExpiry || s3.va.isSome) = true then evictExpired p s3 else s3) = s4 at h4 ⊢
+  obtain ⟨r4, m4⟩ := h4
+  have h5 : RI u (if weightsToEvict p s4 > 0
+        then evictLruLoop p Gen.SYNC_EVICTION_BATCH_SIZE s4 (weightsToEvict p s4) 0 else s4) ∧
+      Mv false u s4 (if weightsToEvict p s4 > 0
+        then evictLruLoop p Gen.SYNC_EVICTION_BATCH_SIZE s4 (weightsToEvict p s4) 0 else s4) := by
+    split
+    · exact ⟨r4.next (evictLruLoop_safe p _ _ _ _ r4.safe) (evictLruLoop_frame0 p _ _ _ _)
+        (evictLruLoop_sub p _ _ _ _), evictLruLoop_mv p _ _ _ _ r4⟩
+    · exact ⟨r4, Mv.refl u s4⟩
+  generalize (if weightsToEvict p s4 > 0
+      then evictLruLoop p Gen.SYNC_EVICTION_BATCH_SIZE s4 (weightsToEvict p s4) 0 else s4) = s5 at h5 ⊢
+  obtain ⟨r5, m5⟩ := h5
+  have m6 : Mv false u s5 { s5 with ec := s5.cec, ws := s5.cws } := Mv.of_eq_map rfl rfl
+  refine ⟨?_, r5.dirty⟩
+  have c1 := Mv.trans hkn m0 m3'
+  have c4 := Mv.trans hkn c1 m4
+  have c5 := Mv.trans hkn c4 m5
+  have c6 := Mv.trans hkn c5 m6
+  exact c6.cast (by simp)
+
+/-! ### an info belongs to one key -/
+
+/-- The key recorded in an info (ghost) is the key of the nodes that the info owns. -/
+def KP (s : SState) : Prop := ∀ n, n ∈ s.prob → (getInfo s n.info).key = n.key
+
+/-- … and the key under which the map holds its entries. -/
+def KM (s : SState) : Prop := ∀ k e, AL.get? s.map k = some e → (getInfo s e.info).key = k
+
+/-- … and the key of the queued inserts, whose infos have been allocated. -/
+def KQ (s : SState) : Prop :=
+  ∀ key hash ve o w, WOp.upsert key hash ve o w ∈ s.writeQ →
+    (getInfo s ve.info).key = key ∧ ve.info < s.nextId
+
+structure KeyOk (s : SState) : Prop where
+  prob : KP s
+  map : KM s
+  wq : KQ s
+
+theorem KP.sub {s s' : SState} (h : KP s) (hs : Sub s s') (hk : ∀ i, (getInfo s' i).key = (getInfo s i).key) :
+    KP s' := fun n hn => by rw [hk]; exact h n (hs.prob n hn)
+
+theorem KP.subc {s s' : SState} {key info : Nat} {hash : UInt64} (h : KP s)
+    (hs : SubC key hash info s s') (hk : ∀ i, (getInfo s' i).key = (getInfo s i).key)
+    (hi : (getInfo s info).key = key) : KP s' := by
+  intro n hn
+  rw [hk]
+  rcases hs.prob n hn with h1 | ⟨e1, _, e3⟩
+  · exact h n h1
+  · rw [e3, e1]; exact hi
+
+theorem KM.frame {s s' : SState} (h : KM s) (hkn : (AL.keys s.map).Nodup) (hf : Frame s s') :
+    KM s' := fun k e he => by rw [hf.key]; exact h k e (hf.mapSub hkn k e he)
+
+theorem applyWrites_kp {p : Params} (n : Nat) : ∀ (s : SState), KP s →
+    (∀ key hash ve o w, WOp.upsert key hash ve o w ∈ s.writeQ → (getInfo s ve.info).key = key) →
+    KP (applyWrites p n s) := by
+  induction n with
+  | zero => intro s h _; exact h
+  | succ n ih =>
+    intro s h hq
+    unfold applyWrites
+    split
+    · exact h
+    · rename_i op rest hs
+      have h0 : KP { s with writeQ := rest } := h
+      have hf := applyWrite_frame0 p { s with writeQ := rest } op
+      have h1 : KP (applyWrite p { s with writeQ := rest } op) := by
+        cases op with
+        | upsert key hash ve oldW newW =>
+          exact h0.subc (handleUpsert_subc p _ key hash ve oldW newW) hf.key
+            (hq key hash ve oldW newW (by rw [hs]; exact List.mem_cons_self))
+        | remove key ve => exact h0.sub (handleRemove_sub _ ve) hf.key
+      refine ih _ h1 ?_
+      rw [(applyWrite_qframe p { s with writeQ := rest } op).writeQ]
+      intro key hash ve o w hm
+      rw [hf.key]
+      exact hq key hash ve o w (by rw [hs]; exact List.mem_cons_of_mem _ hm)
+
+theorem syncRun_keyok {p : Params} (hq : NoQuirks p) {s : SState} (hkn : (AL.keys s.map).Nodup)
+    (h : KeyOk s) : KeyOk (syncRun p s) := by
+  have hfr := syncRun_frame hq s
+  refine ⟨?_, h.map.frame hkn hfr, by intro _ _ _ _ _ hm; rw [syncRun_writeQ] at hm; cases hm⟩
+  rw [syncRun_eq]
+  dsimp only
+  have h1 : KP (syncPass p { s with cec := s.ec, cws := s.ws }) ∧
+      ∀ i, (getInfo (syncPass p { s with cec := s.ec, cws := s.ws }) i).key = (getInfo s i).key := by
+    unfold syncPass
+    dsimp only
+    have a1 : KP (if ({ s with cec := s.ec, cws := s.ws } : SState).readQ.length > 0
+        then applyReads p ({ s with cec := s.ec, cws := s.ws } : SState).readQ.length
+          { s with cec := s.ec, cws := s.ws } else { s with cec := s.ec, cws := s.ws }) ∧
+        (∀ i, (getInfo (if ({ s with cec := s.ec, cws := s.ws } : SState).readQ.length > 0
+        then applyReads p ({ s with cec := s.ec, cws := s.ws } : SState).readQ.length
+          { s with cec := s.ec, cws := s.ws } else { s with cec := s.ec, cws := s.ws }) i).key =
+          (getInfo s i).key) ∧
+        (if ({ s with cec := s.ec, cws := s.ws } : SState).readQ.length > 0
+        then applyReads p ({ s with cec := s.ec, cws := s.ws } : SState).readQ.length
+          { s with cec := s.ec, cws := s.ws } else { s with cec := s.ec, cws := s.ws }).writeQ =
+          s.writeQ := by
+      split
+      · have hf := applyReads_frame hq ({ s with cec := s.ec, cws := s.ws } : SState).readQ.length
+          { s with cec := s.ec, cws := s.ws }
+        exact ⟨KP.sub (s := { s with cec := s.ec, cws := s.ws }) h.prob (applyReads_sub p _ _) hf.key,
+          hf.key, applyReads_writeQ p _ _⟩
+      · exact ⟨h.prob, fun _ => rfl, rfl⟩
+    generalize (if ({ s with cec := s.ec, cws := s.ws } : SState).readQ.length > 0
+        then applyReads p ({ s with cec := s.ec, cws := s.ws } : SState).readQ.length
+          { s with cec := s.ec, cws := s.ws } else { s with cec := s.ec, cws := s.ws }) = s1 at a1 ⊢
+    obtain ⟨k1, e1, w1⟩ := a1
+    have a2 : KP (if s1.writeQ.length > 0 then applyWrites p s1.writeQ.length s1 else s1) ∧
+        ∀ i, (getInfo (if s1.writeQ.length > 0 then applyWrites p s1.writeQ.length s1 else s1) i).key =
+          (getInfo s i).key := by
+      split
+      · refine ⟨applyWrites_kp _ s1 k1 ?_, fun i => by rw [(applyWrites_frame0 p _ s1).key, e1]⟩
+        intro key hash ve o w hm
+        rw [w1] at hm
+        rw [e1]
+        exact (h.wq key hash ve o w hm).1
+      · exact ⟨k1, e1⟩
+    generalize (if s1.writeQ.length > 0 then applyWrites p s1.writeQ.length s1 else s1) = s2 at a2 ⊢
+    obtain ⟨k2, e2⟩ := a2
+    split
+    · have hf := enableSketch_frame0 p s2
+      exact ⟨k2.sub (enableSketch_sub p s2) hf.key, fun i => by rw [hf.key, e2]⟩
+    · exact ⟨k2, e2⟩
+  generalize syncPass p { s with cec := s.ec, cws := s.ws } = s1 at h1 ⊢
+  obtain ⟨k1, _⟩ := h1
+  have h2 : KP (if (p.hasExpiry || s1.va.isSome) = true then evictExpired p s1 else s1) := by
+    split
+    · exact k1.sub (evictExpired_sub _ _) (evictExpired_frame0 _ _).key
+    · exact k1
+  generalize (if (p.hasExpiry || s1.va.isSome) = true then evictExpired p s1 else s1) = s2 at h2 ⊢
+  have h3 : KP (if weightsToEvict p s2 > 0
+      then evictLruLoop p Gen.SYNC_EVICTION_BATCH_SIZE s2 (weightsToEvict p s2) 0 else s2) := by
+    split
+    · exact h2.sub (evictLruLoop_sub _ _ _ _ _) (evictLruLoop_frame0 _ _ _ _ _).key
+    · exact h2
+  exact h3
+
+theorem KeyOk.of_eq {s t : SState} (h : KeyOk s) (e1 : t.prob = s.prob) (e2 : t.map = s.map)
+    (e3 : t.infos = s.infos) (e4 : t.writeQ = s.writeQ) (e5 : t.nextId = s.nextId) : KeyOk t := by
+  have hg : ∀ j, getInfo t j = getInfo s j := getInfo_congr e3
+  refine ⟨?_, ?_, ?_⟩
+  · intro n hn; rw [e1] at hn; rw [hg]; exact h.prob n hn
+  · intro k e he; rw [e2] at he; rw [hg]; exact h.map k e he
+  · intro key hash ve o w hm; rw [e4] at hm; rw [hg, e5]; exact h.wq key hash ve o w hm
+
+theorem trySync_keyok {p : Params} (hq : NoQuirks p) {s : SState} (hkn : (AL.keys s.map).Nodup)
+    (h : KeyOk s) : KeyOk (trySync p s) := by
+  unfold trySync
+  split
+  · exact h
+  · dsimp only
+    generalize s.now + Gen.PERIODICAL_SYNC_INTERVAL_MILLIS * 1000000 = sa
+    have h0 : KeyOk { s with running := true, syncAfter := sa } := h.of_eq rfl rfl rfl rfl rfl
+    exact (syncRun_keyok hq (s := { s with running := true, syncAfter := sa }) hkn h0).of_eq
+      rfl rfl rfl rfl rfl
+
+theorem housekeepW_keyok {p : Params} (hq : NoQuirks p) {s : SState}
+    (hkn : (AL.keys s.map).Nodup) (h : KeyOk s) : KeyOk (housekeepW p s) := by
+  unfold housekeepW; split
+  · exact trySync_keyok hq hkn h
+  · exact h
+
+theorem housekeepR_keyok {p : Params} (hq : NoQuirks p) {s : SState}
+    (hkn : (AL.keys s.map).Nodup) (h : KeyOk s) : KeyOk (housekeepR p s) := by
+  unfold housekeepR; split
+  · exact trySync_keyok hq hkn h
+  · exact h
+
+/-- Queuing a write operation after the housekeeping of `schedule_write_op`. -/
+theorem scheduleWriteOp_keyok {p : Params} (hq : NoQuirks p) {s : SState} (hqi : QInv s)
+    (hkn : (AL.keys s.map).Nodup) (h : KeyOk s) (op : WOp)
+    (hop : ∀ key hash ve o w, op = WOp.upsert key hash ve o w →
+      (getInfo s ve.info).key = key ∧ ve.info < s.nextId) :
+    KeyOk (scheduleWriteOp p 3 s op) := by
+  rw [scheduleWriteOp3 p hqi]
+  have h1 := housekeepW_keyok hq hkn h
+  have hf := housekeepW_frame hq s
+  refine ⟨h1.prob, h1.map, ?_⟩
+  intro key hash ve o w hm
+  rcases List.mem_append.mp hm with hm | hm
+  · exact h1.wq key hash ve o w hm
+  · simp at hm
+    obtain ⟨a, b⟩ := hop key hash ve o w hm.symm
+    show (getInfo (housekeepW p s) ve.info).key = key ∧ ve.info < (housekeepW p s).nextId
+    rw [hf.key]
+    exact ⟨a, Nat.lt_of_lt_of_le b hf.nextId⟩
+
+theorem insert_keyok {p : Params} (hq : NoQuirks p) {s : SState} (hi : AInv p s) (h : KeyOk s)
+    (k v : Nat) : KeyOk (insert p s k v) := by
+  have hnc := hi.top.nodes.toNodesCore
+  unfold insert
+  dsimp only
+  split
+  · rename_i old hg
+    have hold := hi.top.map.bound k old hg
+    have hkey : ∀ j, (getInfo (refreshInfo p s old.info s.now (p.weigh k v)) j).key =
+        (getInfo s j).key := by
+      intro j
+      unfold refreshInfo
+      rw [getInfo_withInfo]
+      by_cases e : old.info = j
+      · rw [if_pos e, e]
+      · rw [if_neg e]
+    refine scheduleWriteOp_keyok hq (s := _) ?_ ?_ ?_ _ ?_
+    · exact qinv_of_eq hi.q rfl rfl rfl
+    · exact AL.nodup_put _ _ hi.top.map.kn
+    · refine ⟨?_, ?_, ?_⟩
+      · intro n hn
+        show (getInfo (refreshInfo p s old.info s.now (p.weigh k v)) n.info).key = n.key
+        rw [hkey]; exact h.prob n hn
+      · intro k' e he
+        show (getInfo (refreshInfo p s old.info s.now (p.weigh k v)) e.info).key = k'
+        rw [hkey]
+        have he' : AL.get? (AL.put s.map k _) k' = some e := he
+        rw [AL.get?_put] at he'
+        by_cases ekk : k = k'
+        · rw [if_pos ekk] at he'
+          cases he'
+          rw [← ekk]; exact h.map k old hg
+        · rw [if_neg ekk] at he'; exact h.map k' e he'
+      · intro key hash ve o w hm
+        show (getInfo (refreshInfo p s old.info s.now (p.weigh k v)) ve.info).key = key ∧
+          ve.info < s.nextId + 1
+        rw [hkey]
+        obtain ⟨a, b⟩ := h.wq key hash ve o w hm
+        exact ⟨a, Nat.lt_succ_of_lt b⟩
+    · intro key hash ve o w e
+      cases e
+      show (getInfo (refreshInfo p s old.info s.now (p.weigh k v)) old.info).key = k ∧
+        old.info < s.nextId + 1
+      rw [hkey]
+      exact ⟨h.map k old hg, Nat.lt_succ_of_lt hold⟩
+  · rename_i hg
+    have c_info := getInfo_withCand p s k v
+    refine scheduleWriteOp_keyok hq (s := withCand p s k v) ?_ ?_ ?_ _ ?_
+    · exact qinv_of_eq hi.q rfl rfl rfl
+    · exact AL.nodup_put _ _ hi.top.map.kn
+    · refine ⟨?_, ?_, ?_⟩
+      · intro n hn
+        have := node_info_lt hnc (show n ∈ s.prob from hn)
+        rw [c_info, if_neg (by omega)]
+        exact h.prob n hn
+      · intro k' e he
+        have he' : AL.get? (AL.put s.map k (candVE s v)) k' = some e := he
+        rw [AL.get?_put] at he'
+        by_cases ekk : k = k'
+        · rw [if_pos ekk] at he'
+          cases he'
+          rw [c_info, if_pos (show s.nextId = (candVE s v).info from rfl), ← ekk]; rfl
+        · rw [if_neg ekk] at he'
+          have := hi.top.map.bound k' e he'
+          rw [c_info, if_neg (by omega)]
+          exact h.map k' e he'
+      · intro key hash ve o w hm
+        obtain ⟨a, b⟩ := h.wq key hash ve o w hm
+        rw [c_info, if_neg (by omega)]
+        exact ⟨a, Nat.lt_of_lt_of_le b (Nat.le_add_right _ 2)⟩
+    · intro key hash ve o w e
+      cases e
+      show (getInfo (withCand p s k v) s.nextId).key = k ∧ s.nextId < s.nextId + 2
+      rw [c_info, if_pos rfl]
+      exact ⟨rfl, Nat.lt_add_of_pos_right (by decide)⟩
+
+theorem get_keyok {p : Params} (hq : NoQuirks p) {s : SState} (hi : AInv p s) (h : KeyOk s)
+    (k : Nat) : KeyOk (get p s k).1 := by
+  have key : ∀ op, KeyOk (recordReadOp p s op) := by
+    intro op
+    rw [recordReadOp_enqueues p hi.q]
+    exact (housekeepR_keyok hq hi.top.map.kn h).of_eq rfl rfl rfl rfl rfl
+  unfold get
+  dsimp only
+  split
+  · exact key _
+  · split <;> exact key _
+
+theorem invalidate_keyok {p : Params} (hq : NoQuirks p) {s : SState} (hi : AInv p s)
+    (h : KeyOk s) (k : Nat) : KeyOk (invalidate p s k) := by
+  unfold invalidate
+  split
+  · exact h
+  · dsimp only
+    refine scheduleWriteOp_keyok hq (s := _) ?_ ?_ ?_ _ ?_
+    · exact qinv_of_eq hi.q rfl rfl rfl
+    · exact AL.nodup_erase _ hi.top.map.kn
+    · refine ⟨h.prob, ?_, h.wq⟩
+      intro k' e he
+      exact h.map k' e ((frame0_erase s k).mapSub hi.top.map.kn k' e he)
+    · intro _ _ _ _ _ e; cases e
+
+/-! ### a dirty entry has its insert queued -/
+
+def GDP (u : Option Nat) (s : SState) : Prop :=
+  ∀ k e, AL.get? s.map k = some e → (getInfo s e.info).dirty = true →
+    (∃ key hash ve o w, WOp.upsert key hash ve o w ∈ s.writeQ ∧ ve.info = e.info) ∨
+      some e.info = u
+
+/-- `handle_upsert` leaves the info of its entry clean. -/
+theorem handleUpsert_clean (p : Params) (s : SState) (key : Nat) (hash : UInt64) (ve : VE)
+    (oldW newW : Nat) : (getInfo (handleUpsert p s key hash ve oldW newW) ve.info).dirty = false := by
+  unfold handleUpsert
+  dsimp only
+  generalize currentWeight p s key ve newW = nw
+  have h0 : (getInfo (withInfo s ve.info (fun i => { i with dirty := false })) ve.info).dirty = false := by
+    rw [getInfo_withInfo, if_pos rfl]
+  generalize withInfo s ve.info (fun i => { i with dirty := false }) = s1 at h0 ⊢
+  have fin : ∀ {s2 : SState}, (∀ j, (getInfo s2 j).dirty = true → (getInfo s1 j).dirty = true) →
+      (getInfo s2 ve.info).dirty = false := by
+    intro s2 h
+    cases hx : (getInfo s2 ve.info).dirty with
+    | false => rfl
+    | true => have := h _ hx; rw [h0] at this; cases this
+  by_cases h1 : (getInfo s1 ve.info).admitted = true
+  · rw [if_pos h1]; exact fin (applyUpdate_sub _ _ _ _ _).dirty
+  · rw [if_neg h1]
+    by_cases h2 : (!p.q.d7 && !isCurrentEntry s1 key ve) = true
+    · rw [if_pos h2]; exact h0
+    · rw [if_neg h2]
+      by_cases h3 : hasEnoughCapacity p nw s1 = true
+      · rw [if_pos h3]; exact fin (handleAdmit_subc _ _ key hash _ _).dirty
+      · rw [if_neg h3]
+        by_cases h4 : tooBig p nw = true
+        · rw [if_pos h4]; exact fin (removeCandidate_sub _ _ _ _).dirty
+        · rw [if_neg h4]; exact fin (admitOrReject_subc _ _ key hash _ _).dirty
+
+theorem applyWrites_gdp {u : Option Nat} (p : Params) (n : Nat) : ∀ (s : SState),
+    (AL.keys s.map).Nodup → GDP u s → GDP u (applyWrites p n s) := by
+  induction n with
+  | zero => intro s _ h; exact h
+  | succ n ih =>
+    intro s hkn h
+    unfold applyWrites
+    split
+    · exact h
+    · rename_i op rest hs
+      have hf := applyWrite_frame0 p { s with writeQ := rest } op
+      have hwq := (applyWrite_qframe p { s with writeQ := rest } op).writeQ
+      refine ih _ (hf.kn hkn) ?_
+      intro k e he hd
+      have he0 : AL.get? s.map k = some e := hf.mapSub hkn k e he
+      have hd0 : (getInfo s e.info).dirty = true := by
+        cases op with
+        | upsert key hash ve oldW newW =>
+          exact (handleUpsert_subc p { s with writeQ := rest } key hash ve oldW newW).dirty _ hd
+        | remove key ve => exact (handleRemove_sub { s with writeQ := rest } ve).dirty _ hd
+      rcases h k e he0 hd0 with ⟨key, hash, ve, o, w, hm, hinfo⟩ | hu
+      · rw [hs] at hm
+        rcases List.mem_cons.mp hm with hm | hm
+        · -- the insert of this very info has just been applied: it is clean
+          exfalso
+          rw [← hm] at hd
+          have := handleUpsert_clean p { s with writeQ := rest } key hash ve o w
+          rw [hinfo] at this
+          have hd' : (getInfo (handleUpsert p { s with writeQ := rest } key hash ve o w) e.info).dirty =
+              true := hd
+          rw [this] at hd'
+          cases hd'
+        · exact Or.inl ⟨key, hash, ve, o, w, by rw [hwq]; exact hm, hinfo⟩
+      · exact Or.inr hu
+
+theorem syncRun_gd {u : Option Nat} {p : Params} (hq : NoQuirks p) {s : SState}
+    (hkn : (AL.keys s.map).Nodup) (h : GDP u s) : DirtyOk u (syncRun p s) := by
+  rw [syncRun_eq]
+  dsimp only
+  have h1 : DirtyOk u (syncPass p { s with cec := s.ec, cws := s.ws }) ∧
+      (AL.keys (syncPass p { s with cec := s.ec, cws := s.ws }).map).Nodup := by
+    unfold syncPass
+    dsimp only
+    have a1 : GDP u (if ({ s with cec := s.ec, cws := s.ws } : SState).readQ.length > 0
+        then applyReads p ({ s with cec := s.ec, cws := s.ws } : SState).readQ.length
+          { s with cec := s.ec, cws := s.ws } else { s with cec := s.ec, cws := s.ws }) ∧
+        (AL.keys (if ({ s with cec := s.ec, cws := s.ws } : SState).readQ.length > 0
+        then applyReads p ({ s with cec := s.ec, cws := s.ws } : SState).readQ.length
+          { s with cec := s.ec, cws := s.ws } else { s with cec := s.ec, cws := s.ws }).map).Nodup := by
+      split
+      · have hf := applyReads_frame hq ({ s with cec := s.ec, cws := s.ws } : SState).readQ.length
+          { s with cec := s.ec, cws := s.ws }
+        refine ⟨?_, hf.kn hkn⟩
+        intro k e he hd
+        have := h k e (hf.mapSub hkn k e he)
+          ((applyReads_sub p _ { s with cec := s.ec, cws := s.ws }).dirty _ hd)
+        rw [applyReads_writeQ]
+        exact this
+      · exact ⟨h, hkn⟩
+    generalize (if ({ s with cec := s.ec, cws := s.ws } : SState).readQ.length > 0
+        then applyReads p ({ s with cec := s.ec, cws := s.ws } : SState).readQ.length
+          { s with cec := s.ec, cws := s.ws } else { s with cec := s.ec, cws := s.ws }) = s1 at a1 ⊢
+    obtain ⟨g1, kn1⟩ := a1
+    have a2 : DirtyOk u (if s1.writeQ.length > 0 then applyWrites p s1.writeQ.length s1 else s1) ∧
+        (AL.keys (if s1.writeQ.length > 0 then applyWrites p s1.writeQ.length s1 else s1).map).Nodup := by
+      split
+      · refine ⟨?_, (applyWrites_frame0 p _ s1).kn kn1⟩
+        have g2 := applyWrites_gdp (u := u) p s1.writeQ.length s1 kn1 g1
+        intro k e he hd
+        rcases g2 k e he hd with ⟨key, hash, ve, o, w, hm, _⟩ | hu
+        · rw [applyWrites_writeQ, List.drop_length] at hm; cases hm
+        · exact hu
+      · rename_i hlen
+        refine ⟨?_, kn1⟩
+        intro k e he hd
+        rcases g1 k e he hd with ⟨key, hash, ve, o, w, hm, _⟩ | hu
+        · cases hq0 : s1.writeQ with
+          | nil => rw [hq0] at hm; cases hm
+          | cons a t => rw [hq0] at hlen; exact absurd (Nat.succ_pos _) hlen
+        · exact hu
+    generalize (if s1.writeQ.length > 0 then applyWrites p s1.writeQ.length s1 else s1) = s2 at a2 ⊢
+    obtain ⟨d2, kn2⟩ := a2
+    split
+    · have hf := enableSketch_frame0 p s2
+      exact ⟨d2.step kn2 (enableSketch_sub p s2).dirty hf.mapSub, hf.kn kn2⟩
+    · exact ⟨d2, kn2⟩
+  generalize syncPass p { s with cec := s.ec, cws := s.ws } = s1 at h1 ⊢
+  obtain ⟨d1, kn1⟩ := h1
+  have h2 : DirtyOk u (if (p.hasExpiry || s1.va.isSome) = true then evictExpired p s1 else s1) ∧
+      (AL.keys (if (p.hasExpiry || s1.va.isSome) = true then evictExpired p s1 else s1).map).Nodup := by
+    split
+    · have hf := evictExpired_frame0 p s1
+      exact ⟨d1.step kn1 (evictExpired_sub p s1).dirty hf.mapSub, hf.kn kn1⟩
+    · exact ⟨d1, kn1⟩
+  generalize (if (p.hasExpiry || s1.va.isSome) = true then evictExpired p s1 else s1) = s2 at h2 ⊢
+  obtain ⟨d2, kn2⟩ := h2
+  have h3 : DirtyOk u (if weightsToEvict p s2 > 0
+      then evictLruLoop p Gen.SYNC_EVICTION_BATCH_SIZE s2 (weightsToEvict p s2) 0 else s2) := by
+    split
+    · have hf := evictLruLoop_frame0 p Gen.SYNC_EVICTION_BATCH_SIZE s2 (weightsToEvict p s2) 0
+      exact d2.step kn2 (evictLruLoop_sub p _ _ _ _).dirty hf.mapSub
+    · exact d2
+  exact h3
+
+theorem DirtyOk.gdp {u : Option Nat} {s : SState} (h : DirtyOk u s) : GDP u s :=
+  fun k e he hd => Or.inr (h k e he hd)
+
+theorem GDP.of_eq {u : Option Nat} {s t : SState} (h : GDP u s) (e1 : t.map = s.map)
+    (e2 : t.infos = s.infos) (e3 : t.writeQ = s.writeQ) : GDP u t := by
+  intro k e he hd
+  rw [e1] at he
+  rw [getInfo_congr e2] at hd
+  rw [e3]
+  exact h k e he hd
+
+theorem trySync_gd {u : Option Nat} {p : Params} (hq : NoQuirks p) {s : SState}
+    (hkn : (AL.keys s.map).Nodup) (h : GDP u s) : GDP u (trySync p s) := by
+  unfold trySync
+  split
+  · exact h
+  · dsimp only
+    generalize s.now + Gen.PERIODICAL_SYNC_INTERVAL_MILLIS * 1000000 = sa
+    have h0 : GDP u { s with running := true, syncAfter := sa } := h.of_eq rfl rfl rfl
+    have := (syncRun_gd hq (s := { s with running := true, syncAfter := sa }) hkn h0).gdp
+    exact this.of_eq rfl rfl rfl
+
+theorem housekeepW_gd {u : Option Nat} {p : Params} (hq : NoQuirks p) {s : SState}
+    (hkn : (AL.keys s.map).Nodup) (h : GDP u s) : GDP u (housekeepW p s) := by
+  unfold housekeepW; split
+  · exact trySync_gd hq hkn h
+  · exact h
+
+theorem housekeepR_gd {u : Option Nat} {p : Params} (hq : NoQuirks p) {s : SState}
+    (hkn : (AL.keys s.map).Nodup) (h : GDP u s) : GDP u (housekeepR p s) := by
+  unfold housekeepR; split
+  · exact trySync_gd hq hkn h
+  · exact h
+
+/-- Queuing the insert of the info that the housekeeping tolerated as dirty. -/
+theorem scheduleWriteOp_gd {p : Params} (hq : NoQuirks p) {s : SState} (hqi : QInv s)
+    (hkn : (AL.keys s.map).Nodup) {i : Nat} (h : GDP (some i) s) (key : Nat) (hash : UInt64)
+    (ve : VE) (o w : Nat) (hve : ve.info = i) :
+    GDP none (scheduleWriteOp p 3 s (.upsert key hash ve o w)) := by
+  rw [scheduleWriteOp3 p hqi]
+  have h1 := housekeepW_gd hq hkn h
+  intro k e he hd
+  rcases h1 k e he hd with ⟨key', hash', ve', o', w', hm, hinfo⟩ | hu
+  · exact Or.inl ⟨key', hash', ve', o', w', List.mem_append_left _ hm, hinfo⟩
+  · refine Or.inl ⟨key, hash, ve, o, w, List.mem_append_right _ List.mem_cons_self, ?_⟩
+    rw [hve]; exact (Option.some.inj hu).symm
+
+theorem insert_gd {p : Params} (hq : NoQuirks p) {s : SState} (hi : AInv p s) (h : GDP none s)
+    (k v : Nat) : GDP none (insert p s k v) := by
+  unfold insert
+  dsimp only
+  split
+  · rename_i old hg
+    have hinfo : ∀ j, j ≠ old.info →
+        getInfo (refreshInfo p s old.info s.now (p.weigh k v)) j = getInfo s j := by
+      intro j hj
+      unfold refreshInfo
+      rw [getInfo_withInfo, if_neg (fun e => hj e.symm)]
+    refine scheduleWriteOp_gd hq (s := _) (i := old.info) ?_ ?_ ?_ _ _ _ _ _ rfl
+    · exact qinv_of_eq hi.q rfl rfl rfl
+    · exact AL.nodup_put _ _ hi.top.map.kn
+    · intro k' e he hd
+      by_cases hei : e.info = old.info
+      · exact Or.inr (by rw [hei])
+      · have he' : AL.get? (AL.put s.map k _) k' = some e := he
+        rw [AL.get?_put] at he'
+        have hd' : (getInfo (refreshInfo p s old.info s.now (p.weigh k v)) e.info).dirty = true := hd
+        rw [hinfo _ hei] at hd'
+        by_cases ekk : k = k'
+        · rw [if_pos ekk] at he'
+          cases he'
+          exact absurd rfl hei
+        · rw [if_neg ekk] at he'
+          rcases h k' e he' hd' with hl | hr
+          · exact Or.inl hl
+          · cases hr
+  · rename_i hg
+    have c_info := getInfo_withCand p s k v
+    refine scheduleWriteOp_gd hq (s := withCand p s k v) (i := s.nextId) ?_ ?_ ?_ _ _ _ _ _ rfl
+    · exact qinv_of_eq hi.q rfl rfl rfl
+    · exact AL.nodup_put _ _ hi.top.map.kn
+    · intro k' e he hd
+      by_cases hei : e.info = s.nextId
+      · exact Or.inr (by rw [hei])
+      · have he' : AL.get? (AL.put s.map k (candVE s v)) k' = some e := he
+        rw [AL.get?_put] at he'
+        rw [c_info, if_neg (fun e' => hei e'.symm)] at hd
+        by_cases ekk : k = k'
+        · rw [if_pos ekk] at he'
+          cases he'
+          exact absurd rfl hei
+        · rw [if_neg ekk] at he'
+          rcases h k' e he' hd with hl | hr
+          · exact Or.inl hl
+          · cases hr
+
+theorem get_gd {p : Params} (hq : NoQuirks p) {s : SState} (hi : AInv p s) (h : GDP none s)
+    (k : Nat) : GDP none (get p s k).1 := by
+  have key : ∀ op, GDP none (recordReadOp p s op) := by
+    intro op
+    rw [recordReadOp_enqueues p hi.q]
+    exact (housekeepR_gd hq hi.top.map.kn h).of_eq rfl rfl rfl
+  unfold get
+  dsimp only
+  split
+  · exact key _
+  · split <;> exact key _
+
+theorem invalidate_gd {p : Params} (hq : NoQuirks p) {s : SState} (hi : AInv p s)
+    (h : GDP none s) (k : Nat) : GDP none (invalidate p s k) := by
+  unfold invalidate
+  split
+  · exact h
+  · dsimp only
+    rw [scheduleWriteOp3 p (s := { s with map := AL.erase s.map k }) (qinv_of_eq hi.q rfl rfl rfl)]
+    have h0 : GDP none { s with map := AL.erase s.map k } := by
+      intro k' e he hd
+      exact h k' e ((frame0_erase s k).mapSub hi.top.map.kn k' e he) hd
+    have h1 := housekeepW_gd hq (s := { s with map := AL.erase s.map k })
+      (AL.nodup_erase _ hi.top.map.kn) h0
+    intro k' e he hd
+    rcases h1 k' e he hd with ⟨key', hash', ve', o', w', hm, hinfo⟩ | hu
+    · exact Or.inl ⟨key', hash', ve', o', w', List.mem_append_left _ hm, hinfo⟩
+    · cases hu
+
+/-! ### the invariant carried along a trace, for the recency walk -/
+
+structure RInv (p : Params) (s : SState) : Prop where
+  ainv : AInv p s
+  key : KeyOk s
+  gd : GDP none s
+
+theorem init_rinv (p : Params) : RInv p {} := by
+  refine ⟨init_ainv p, ⟨?_, ?_, ?_⟩, ?_⟩
+  · intro n hn; cases hn
+  · intro k e he; cases he
+  · intro _ _ _ _ _ hm; cases hm
+  · intro k e he; cases he
+
+theorem rawStep_rinv {p : Params} (hq : NoQuirks p) (hsm : SmallSketch p) {s : SState}
+    (h : RInv p s) (op : Op) : RInv p (rawStep p s op).1 := by
+  have ha : AInv p (rawStep p s op).1 := (run_cons_ok hq hsm h.ainv op []).2
+  refine ⟨ha, ?_, ?_⟩
+  · cases op with
+    | ins k v => exact insert_keyok hq h.ainv h.key k v
+    | get k => exact get_keyok hq h.ainv h.key k
+    | inv k => exact invalidate_keyok hq h.ainv h.key k
+    | sync => exact syncRun_keyok hq h.ainv.top.map.kn h.key
+    | invAll => exact h.key.of_eq rfl rfl rfl rfl rfl
+    | adv d => exact h.key.of_eq rfl rfl rfl rfl rfl
+    | _ => exact h.key
+  · cases op with
+    | ins k v => exact insert_gd hq h.ainv h.gd k v
+    | get k => exact get_gd hq h.ainv h.gd k
+    | inv k => exact invalidate_gd hq h.ainv h.gd k
+    | sync => exact (syncRun_gd hq h.ainv.top.map.kn h.gd).gdp
+    | invAll => exact h.gd.of_eq rfl rfl rfl
+    | adv d => exact h.gd.of_eq rfl rfl rfl
+    | _ => exact h.gd
 
 end Admit
 end Sync
